@@ -366,6 +366,13 @@ func hostAddrFromPeer(peerAddr net.Addr) (net.IP, error) {
 		return nil, serrors.New("invalid peer address type, expected *net.TCPAddr",
 			"peer", peerAddr, "type", common.TypeOf(peerAddr))
 	}
+	// A requester without a proper IP address cannot be matched against the
+	// host named in the request: net.IP.Equal considers two empty IPs equal, and
+	// a host that is not an IP address (e.g., a service address) parses to nil.
+	if l := len(tcpAddr.IP); l != net.IPv4len && l != net.IPv6len {
+		return nil, serrors.New("invalid peer address, expected an IPv4 or IPv6 address",
+			"peer", peerAddr)
+	}
 	return tcpAddr.IP, nil
 }
 
